@@ -212,28 +212,37 @@ class SymReal:
     def __init__(self, t):
         self.t = t
 
+    def _o(self, o):
+        """lift the other operand; integer literals stay integers next to an Int-sorted term"""
+        if self.t.is_int():
+            if isinstance(o, (int, np.integer)) and not isinstance(o, bool):
+                return z3.IntVal(int(o))
+            if isinstance(o, SymReal) and o.t.is_int():
+                return o.t
+        return _num(o)
+
     # ---- arithmetic
     def __add__(self, o):
         if not _liftable(o):
             return NotImplemented
-        return SymReal(self.t + _num(o))
+        return SymReal(self.t + self._o(o))
 
     __radd__ = __add__
 
     def __sub__(self, o):
         if not _liftable(o):
             return NotImplemented
-        return SymReal(self.t - _num(o))
+        return SymReal(self.t - self._o(o))
 
     def __rsub__(self, o):
         if not _liftable(o):
             return NotImplemented
-        return SymReal(_num(o) - self.t)
+        return SymReal(self._o(o) - self.t)
 
     def __mul__(self, o):
         if not _liftable(o):
             return NotImplemented
-        return SymReal(self.t * _num(o))
+        return SymReal(self.t * self._o(o))
 
     __rmul__ = __mul__
 
